@@ -157,7 +157,8 @@ type Guar struct {
 	Prop  string   // property that owns (verifies) the guarantee
 	Fn    string   // FuncInfo name
 	P     []string // positional names: receiver first (methods), then parameters; "" = unnamed
-	Facts []string // fact patterns over $<P> and $r0..$rN
+	Facts []string // what callers learn on the success edge: fact patterns over $<P> and $r0..$rN (may be abstract predicates)
+	Proof []string // clauses the function itself must establish on every success return (default: Facts)
 	facts []*Term
 }
 
@@ -179,7 +180,7 @@ func newE1(c *Ctx, guars []*Guar) *e1 {
 	for _, g := range guars {
 		g.facts = nil
 		for _, f := range g.Facts {
-			g.facts = append(g.facts, mustPattern(f))
+			g.facts = append(g.facts, mustFactPattern(f))
 		}
 		e.guars[g.Fn] = g
 	}
@@ -327,6 +328,7 @@ type e1func struct {
 	caseType map[ast.Expr]ast.Expr // type-switch case type -> switched expression
 	closureW map[types.Object][]types.Object
 	sites    []*e1site
+	statusOf map[string]int // call term key -> index of its status result (-1: none)
 	errIdx   int // index of the status result (error or trailing bool), -1 if none
 	errBool  bool
 	widened  bool
@@ -337,7 +339,7 @@ func (e *e1) analyse(fi *FuncInfo) *e1func {
 	if f, ok := e.cache[fi]; ok {
 		return f
 	}
-	f := &e1func{eng: e, fi: fi, info: fi.Pkg.TypesInfo, caseTag: map[ast.Expr]ast.Expr{}, caseType: map[ast.Expr]ast.Expr{}, closureW: map[types.Object][]types.Object{}, errIdx: -1}
+	f := &e1func{eng: e, fi: fi, info: fi.Pkg.TypesInfo, caseTag: map[ast.Expr]ast.Expr{}, caseType: map[ast.Expr]ast.Expr{}, closureW: map[types.Object][]types.Object{}, statusOf: map[string]int{}, errIdx: -1}
 	e.cache[fi] = f
 	f.prepare()
 	f.run()
@@ -562,6 +564,18 @@ func (f *e1func) pureExpr(e ast.Expr) bool {
 		return f.pureExpr(x.X)
 	case *ast.StarExpr:
 		return f.pureExpr(x.X)
+	case *ast.UnaryExpr:
+		return f.pureExpr(x.X)
+	case *ast.CompositeLit:
+		for _, el := range x.Elts {
+			if kv, ok := el.(*ast.KeyValueExpr); ok {
+				el = kv.Value
+			}
+			if !f.pureExpr(el) {
+				return false
+			}
+		}
+		return true
 	case *ast.BinaryExpr:
 		return f.pureExpr(x.X) && f.pureExpr(x.Y)
 	case *ast.IndexExpr:
@@ -829,10 +843,19 @@ func lastNode(b *cfg.Block) ast.Node {
 // calls of a node in evaluation order, not descending into literals
 func (f *e1func) callsOf(n ast.Node) []*ast.CallExpr { return postorderCalls(n) }
 
+// readOnlyCallees: out-of-module callees that take a pointer argument without writing through it.
+var readOnlyCallees = map[string]bool{
+	"(*github.com/go-jose/go-jose/v4.JSONWebSignature).Verify": true,
+	"github.com/go-jose/go-jose/v4.JSONWebSignature.Verify":    true,
+}
+
 // callEffects applies kills caused by calls (mutation summaries, &v arguments, closure writes).
 func (f *e1func) callEffects(st *fstate, n ast.Node) *fstate {
 	for _, c := range f.callsOf(n) {
 		for _, a := range c.Args {
+			if fn, _ := typeutil.Callee(f.info, c).(*types.Func); fn != nil && readOnlyCallees[calleeName(fn)] {
+				break
+			}
 			if u, ok := unparen(a).(*ast.UnaryExpr); ok && u.Op == token.AND {
 				if r, p, ok := accessPath(f.term(u.X)); ok && r != nil {
 					st = st.kill(r, p)
@@ -945,6 +968,9 @@ func (f *e1func) transfer(st *fstate, n ast.Node, sites *[]*e1site) []*fstate {
 		}
 		var add []*Term
 		if len(rhs) == 1 && len(lhs) > 1 {
+			if idx, _, _ := f.callStatusIdx(s.Rhs[0]); true {
+				f.statusOf[rhs[0].Key()] = idx
+			}
 			for i, lt := range lhs {
 				if lt == nil || lt.K != "var" {
 					continue
@@ -1149,6 +1175,23 @@ func (f *e1func) doReturn(rs *ast.ReturnStmt, cur []*fstate, sites *[]*e1site) {
 				site.ok = append(site.ok, false)
 			}
 			continue
+		}
+		if op.K == "var" && !st.has(fact("nil", op)) && !st.has(fact("nonnil", op)) && !st.has(fact("true", op)) && !st.has(fact("false", op)) {
+			if d := f.defOf(st, op); d != nil && (d.A[1].K == "call" || d.A[1].K == "mcall" || d.A[1].K == "dyn") {
+				idx, known := f.statusOf[d.A[1].Key()]
+				isStatus := (len(d.A) == 3 && known && fmt.Sprint(idx) == d.A[2].S) || (len(d.A) == 2 && !f.errBool)
+				if isStatus {
+					if ns := st.with(f.okFacts(st, d.A[1], true)...); ns != nil {
+						site.states = append(site.states, &fstate{facts: ns.facts, from: st, via: "returned status ok"})
+						site.ok = append(site.ok, true)
+					}
+					if ns := st.with(fact("fail", d.A[1])); ns != nil {
+						site.states = append(site.states, &fstate{facts: ns.facts, from: st, via: "returned status fail"})
+						site.ok = append(site.ok, false)
+					}
+					continue
+				}
+			}
 		}
 		success := true
 		if f.errBool {
@@ -1510,7 +1553,7 @@ func (f *e1func) leaf(st *fstate, cond ast.Expr, val bool) ([]*Term, bool) {
 					return fs, true
 				}
 				// trailing bool of a multi-result call
-				if len(d.A) == 3 && (d.A[1].K == "call" || d.A[1].K == "mcall" || d.A[1].K == "dyn") {
+				if idx, known := f.statusOf[d.A[1].Key()]; len(d.A) == 3 && known && fmt.Sprint(idx) == d.A[2].S && (d.A[1].K == "call" || d.A[1].K == "mcall" || d.A[1].K == "dyn") {
 					if val {
 						return append([]*Term{fact("true", xt)}, f.okFacts(st, d.A[1], true)...), true
 					}
@@ -1602,8 +1645,17 @@ type solveResult struct {
 	used   []string
 }
 
-func builtinHolds(p *Term, b Bind) (bool, bool) {
+// customPreds: repository-specific predicates evaluated on ground terms with access to the state.
+var customPreds = map[string]func(st *fstate, args []*Term) bool{}
+
+func builtinHolds(st *fstate, p *Term, b Bind) (bool, bool) {
 	g := subst(p, b)
+	if cp, ok := customPreds[p.S]; ok {
+		if hasPV(g) {
+			return false, true
+		}
+		return cp(st, g.A), true
+	}
 	switch p.S {
 	case "same":
 		if len(g.A) == 2 && !hasPV(g) {
@@ -1636,11 +1688,11 @@ func solve(st *fstate, clauses []Clause, b Bind) solveResult {
 			return k(b, used)
 		}
 		p := pats[i]
-		if holds, decided := builtinHolds(p, b); decided {
+		if holds, decided := builtinHolds(st, p, b); decided {
 			if holds {
 				return matchAll(pats, i+1, b, append(used, "builtin "+subst(p, b).String()), k)
 			}
-			if p.S == "same" || p.S == "literal" {
+			if p.S == "same" || p.S == "literal" || customPreds[p.S] != nil {
 				return false
 			}
 		}
